@@ -73,6 +73,27 @@ CORPUS = {
         definition=machine("M", M={"Type": "Map", "ItemsPath": "$.items", "ItemProcessor": machine(
             "T", T=T("f1", Retry=[{"ErrorEquals": ["E.X"], "IntervalSeconds": 1, "MaxAttempts": 2}], End=True)), "End": True}),
         input={"items": ["a", "b"]}, script={"f1": [{"err": "E.X", "delay": 0.5}, {"ok": OK, "delay": 0.5}]}),
+    # nested fan-outs: a branch / iteration whose terminal state is itself a Map or Parallel state
+    "map-batches-iterator-ends-in-parallel": dict(
+        definition=machine("M", M={"Type": "Map", "ItemsPath": "$.items", "MaxConcurrency": 2, "ResultPath": "$.r", "Next": "Z",
+                                   "ItemProcessor": machine("P", P={"Type": "Parallel", "End": True, "Branches": [
+                                       machine("A", A=T("f1", Next="B"), B=T("f2", End=True))]})},
+                           Z=T("f3", End=True)),
+        input={"items": [1, 2, 3]}, script={"f1": [{"ok": {"op": "echo"}, "delay": 0.5}], "f2": [{"ok": OK, "delay": 1.0}],
+                                            "f3": [{"ok": {"op": "tag"}, "delay": 0.5}]}),
+    "parallel-branch-ends-in-map": dict(
+        definition=machine("P", P={"Type": "Parallel", "End": True, "Branches": [
+            machine("M", M={"Type": "Map", "ItemsPath": "$.items", "End": True,
+                            "ItemProcessor": machine("T", T=T("f1", End=True))}),
+            machine("S", S=T("f2", End=True))]}),
+        input={"items": [1, 2]}, script={"f1": [{"ok": OK, "delay": 1.0}], "f2": [{"ok": OK, "delay": 3.0}]}),
+    "parallel-in-parallel-then-task": dict(
+        definition=machine("P", P={"Type": "Parallel", "Next": "Z", "ResultPath": "$.r", "Branches": [
+            machine("Q", Q={"Type": "Parallel", "End": True, "Branches": [
+                machine("A", A=T("f1", End=True)), machine("W", W={"Type": "Wait", "Seconds": 2, "End": True})]}),
+            machine("B", B=T("f2", End=True))]}, Z=T("f3", End=True)),
+        input={"x": 1}, script={"f1": [{"ok": OK, "delay": 1.0}], "f2": [{"ok": OK, "delay": 4.0}],
+                                "f3": [{"ok": {"op": "tag"}, "delay": 0.5}]}),
     "wait-long-then-task": dict(
         definition=machine("W", W={"Type": "Wait", "Seconds": 30, "Next": "A"}, A=T("f1", End=True)),
         input={"x": 9}, script={"f1": [{"ok": {"op": "tag"}, "delay": 0.0}]}),
@@ -80,7 +101,8 @@ CORPUS = {
 
 QUICK = ["pass-task-pass", "two-tasks-and-wait", "choice-and-succeed", "task-retry-then-success", "task-catch",
          "task-timeout-caught", "fail-state", "parallel-two-tasks", "parallel-end-with-wait", "map-tasks",
-         "map-maxconcurrency", "parallel-branch-fails"]
+         "map-maxconcurrency", "parallel-branch-fails", "map-batches-iterator-ends-in-parallel",
+         "parallel-branch-ends-in-map", "parallel-in-parallel-then-task"]
 
 
 def scenario(name, cfg=None, type_="STANDARD"):
